@@ -229,7 +229,8 @@ class Association(threading.Thread):
         if self._sent_abort:
             return
 
-        if self.is_released:
+        # Nothing to abort if the association has already ended
+        if self.is_released or self.is_aborted or self.is_rejected:
             return
 
         # Set before restarting the reactor to prevent race condition
